@@ -29,6 +29,9 @@ class LearnableThermometerThresholding(nn.Module):
     def set_extra_state(self, state):
         self._frozen = bool(state["frozen"])
         self.raw_diffs.requires_grad = not self._frozen
+        if self._frozen:
+            # as in freeze_thresholds: an optimizer built earlier skips the parameter only when its grad is None
+            self.raw_diffs.grad = None
 
     def _load_from_state_dict(self, state_dict, prefix, *args, **kwargs):
         # checkpoints written before the flag was persisted carry no extra state: keep the current mode
